@@ -16,8 +16,7 @@ def queries(tier):
             qs.append(Query('finder/%s/L%d' % (ch, L), 'C01_leaf.cpp', 'h_finder', {'L': L, 'CHAR': ch}, bounds=b, default_unwind=12, cflags=['-Dprotected=public'], timeout=600))
             b2 = {'parseIfCase|vf_buf.*': L + 2, 'IsEqual': 6}
             qs.append(Query('if_case/%s/L%d' % (ch, L), 'C01_leaf.cpp', 'h_if_case', {'L': L, 'CHAR': ch}, bounds=b2, cflags=['-Dprotected=public'], timeout=600))
-        for L in ((8,) if tier == 'quick' else (6, 8, 10, 12)):
-            if ch != 'char' and L != 8: continue
+        for L in ((6,) if ch != 'char' else ((8,) if tier == 'quick' else (6, 8, 10, 12))):
             b3 = {'parseLoopAttributes|vf_buf.*': L + 2, 'IsEqual': 7, 'checkLoopVariable': 3}
             qs.append(Query('loop_attrs/%s/L%d' % (ch, L), 'C01_leaf.cpp', 'h_loop_attrs', {'L': L, 'CHAR': ch}, bounds=b3, cflags=['-Dprotected=public'], timeout=900))
         for L in ((6,) if tier == 'quick' else (4, 6, 8)):
